@@ -161,6 +161,7 @@ def C03(ctx):
     tables.rule_inner_dist_table(ctx, m)      # the Python kernels take point distance / result / inner_val from this table
     from .rules import wps, bounds
     wps.rule_wps_epilogue(ctx, m)
+    wps.rule_wps_end_scans(ctx, m)
     wps.rule_parts_domains(ctx, m)
     with ctx.scoped(lambda r, t: r in ('R-PRUNE',)):
         wps.rule_wps_writers(ctx, m, affinity=False, tier=ctx.tier)
@@ -200,6 +201,7 @@ def C04(ctx):
     wps.rule_pyx_direct_matrix(ctx, m)
     wps.rule_direct_identity(ctx, m)
     wps.rule_wps_epilogue(ctx, m)
+    wps.rule_wps_end_scans(ctx, m)
     wps.rule_wps_exits(ctx, m)
     wps.rule_wps_readers(ctx, m, affinity=False)
     cshape.rule_ndim_stride(ctx, m, NDIM_FUNCS[4:6])
@@ -227,8 +229,8 @@ def C05(ctx):
     for kir in (True, False):
         with ctx.scoped(lambda r, t: r == 'R-BAND'):
             _wp(ctx, m, kir, ['band'])          # a path traced through an out-of-band cell is not a valid warping path
-    with ctx.scoped(has('dtw_wps_loc')):
-        wps.rule_wps_readers(ctx, m)
+    with ctx.scoped(has('dtw_wps_loc', 'top row copy', 'row coverage', 'first slice row')):
+        wps.rule_wps_readers(ctx, m)          # best_path on an expanded matrix: the expansion holds every in-band cell of the slice, the border row included
     with ctx.scoped(has('warping_path', 'best_path')):
         sig.rule_pyx_to_c(ctx, m)
         sig.rule_c_to_c(ctx, m)
